@@ -54,11 +54,13 @@ Theorem C17_refuted_subdiagram_before_fix :
   graph_at (fold_left run_op_shallow [OpSub 0 false] (init witness_graph)) 0 <> Some witness_graph.
 Proof. exact shallow_refuted. Qed.
 
-(* outside the grammar: Union[None, X] is the same type as Optional[X], yet it is classified builtin and its
-   endpoint is NoneType (no association edge) *)
-Theorem C17_refuted_union_none_first : exists f : wfield,
-  s_optional (resolved_type f) = true /\ kinds_of f <> Ok (spec_kind (resolved_type f)).
-Proof. exact union_none_first_refuted. Qed.
+(* regression (C17-b, repaired by 90ccf0e): the old rule "contained type of an optional = get_args(...)[0]" answers
+   NoneType on Union[None, X]; the code as translated now answers X, and Union[None, X] is inside wf_ty *)
+Theorem C17_regression_union_none_first : forall c d df,
+  index0 (get_args (OptionalL (Cls c))) = Ok (Builtin BNoneType)
+  /\ type_endpoint {| resolved_type := OptionalL (Cls c); has_default := d; has_default_factory := df |} = Ok (Cls c)
+  /\ is_builtin_type {| resolved_type := OptionalL (Cls c); has_default := d; has_default_factory := df |} = Ok false.
+Proof. exact union_none_first_regression. Qed.
 
 (* outside the fragment: a module that sees two classes under `if TYPE_CHECKING:` only; with one of them
    missing from the diagram construction raises NameError although the Spec has edges; with both present it works *)
@@ -69,7 +71,7 @@ Theorem C17_refuted_two_unresolved :
 Proof. exact two_unresolved_refuted. Qed.
 
 Example C17_nonvacuous :
-  wf_ty (Optional (Cls 2)) = true /\ wf_ty (Cont KList (Enum 3)) = true /\ wf_ty (TypeOf (Cls 2)) = true /\
+  wf_ty (Optional (Cls 2)) = true /\ wf_ty (OptionalL (Cls 2)) = true /\ wf_ty (Cont KList (Enum 3)) = true /\ wf_ty (TypeOf (Cls 2)) = true /\
   k_one_to_one (spec_kind (Optional (Cls 2))) = true /\ k_endpoint (spec_kind (TypeOf (Cls 2))) = Cls 2 /\
   g_edges (sub_graph false witness_graph) <> g_edges witness_graph /\
   wf_prog example_prog = true /\ wf_classes example_prog [4; 3; 2] = true /\
@@ -86,5 +88,5 @@ Print Assumptions C17_edges_exec.
 Print Assumptions C17_views_pure.
 Print Assumptions C17_views_pure_all.
 Print Assumptions C17_refuted_subdiagram_before_fix.
-Print Assumptions C17_refuted_union_none_first.
+Print Assumptions C17_regression_union_none_first.
 Print Assumptions C17_refuted_two_unresolved.
